@@ -20,6 +20,8 @@ CHECKS = {
  "C14": "Step VCs for every execute variant of cw4-group and cw4-stake (cw-controllers Admin/Hooks from their MIR): state changes only by the stored admin (or the staker's own bond/unbond), one MemberChangedHook per registered hook in order with identical diffs, and a replay oracle: applying the reported diffs in order to the pre-state membership reproduces each reported old weight and the final membership.",
  "C03": "Step VCs over Propose/Vote/Execute/Close of both multisigs (cw3 current_status/update_status and Votes::add_vote from MIR): recorded tally = sum of recorded ballots, every stored Passed/Rejected status is one the threshold kernel derives from that tally, Execute/Close are admitted exactly on the derived status, queries report current_status of the stored proposal. The kernel's arithmetic meaning is C04's; here it is an uninterpreted function constrained by the facts C04 proves.",
  "C05": "Step VCs for every execute variant of both multisigs plus a time-passage VC: messages are dispatched only by Execute on a derived-Passed proposal (authorised caller for flex), exactly as proposed with no reply, status recorded Executed so a repeated/re-entrant Execute fails; Close only when expired and not passed and relays nothing; stored and observed status only move forward; ids = counter + 1; content fixed at creation; expiry <= max voting period.",
+ "C06": "VCs over cw3-fixed-multisig instantiate (every voter list incl. repeated addresses / zero weights) and Propose/Vote/Execute/Close/MemberChangedHook of both multisigs: one ballot per voter and proposal, only before expiry/execution, ballot weight = the voter's weight in the proposal's snapshot (fixed list, or the group at the start of the proposal's block through a symbolic group-history environment), proposal total = sum of that snapshot, membership changes never alter ballots or totals. Known finding (flex, same-block group change) is matched by signature.",
+ "C15": "VCs over cw3-flex-multisig Propose/Vote/Execute/Close with cw3 DepositInfo from MIR: a native deposit must be paid exactly, a cw20 deposit is pulled by exactly one TransferFrom from the proposer, the deposit is returned only by Execute (always) or Close (iff refunds for failed proposals are promised), only to the proposer, for the recorded amount, together with a final status; plus a recoverability VC (expired failed proposal with promised refund can be closed) whose known violation is matched by signature.",
 }
 PENDING = {}
 ALL = [f"C{i:02d}" for i in range(1, 21)]
